@@ -8,4 +8,5 @@ S_p_p   == <<<<"ping">>, <<"ping", "drop">>>>
 S_ppp   == <<<<"ping", "ping", "ping", "drop">>>>
 \* one line per complete behaviour: the schedule (thread ids, without the final un-interleaved phase) and the events
 PrintSched == (RecordHist /\ Done) => PrintT(<<"SCHED", ToJson([scripts |-> Scripts, ndisp |-> NDisp, sched |-> sched, hist |-> hist])>>)
+ASSUME PrintT(<<"CFG", ToJson([scripts |-> Scripts, ndisp |-> NDisp])>>)
 =============================================================================
